@@ -89,6 +89,22 @@ func (k *c40) check(o *stepObs) {
 	if c.nonRoot && x.okEdits >= 1 {
 		x.nt = true
 	}
+	// an edit that loses elements it must keep (C38 / C39 findings) gives the prediction nothing to agree with
+	expectGone := map[string]bool{}
+	if c.kind == opDeleteObj || c.kind == opDeleteEdge {
+		expectGone[c.elem] = true
+		for _, e := range pre.edges {
+			if c.kind == opDeleteObj && (pre.els[e].src == c.elem || pre.els[e].dst == c.elem) {
+				expectGone[e] = true
+			}
+		}
+	}
+	for _, m := range pre.order {
+		if _, survives := post.els[m]; !survives && !expectGone[m] {
+			x.label("unchecked:edit-lost-elements")
+			return
+		}
+	}
 	if len(o.deltas) > 0 {
 		x.label("deltas:nonempty:" + name)
 	} else {
